@@ -421,7 +421,9 @@ def gen_reply_table(rng, prog, n_names=None, force_modes=None, stage_merge=False
                 new_method(outcome, want[:2], sig)
                 want = want[2:]
             if stage_shared and names[0] in want and names[1] in want:
-                if letter == "s":
+                # "error": one error method below two success methods; "success": one success method above two error methods
+                shared_letter = "e" if stage_shared != "success" else "s"
+                if letter != shared_letter:
                     new_method(outcome, [names[0]], sig)
                     new_method(outcome, [names[1]], sig)
                 else:
@@ -434,8 +436,10 @@ def gen_reply_table(rng, prog, n_names=None, force_modes=None, stage_merge=False
     rng.shuffle(table["methods"])
     _stage_merged_then_new(rng, table["methods"], always=stage_merge)
     if stage_shared:
-        shared = [m for m in table["methods"] if m["reply_on"] == "error" and set(names[:2]) <= set(m["serves"])]
-        table["methods"][:] = [m for m in table["methods"] if m not in shared] + shared
+        which = "success" if stage_shared == "success" else "error"
+        shared = [m for m in table["methods"] if m["reply_on"] == which and set(names[:2]) <= set(m["serves"])]
+        rest = [m for m in table["methods"] if m not in shared]
+        table["methods"][:] = (shared + rest) if which == "success" else (rest + shared)
     cpart["handlers"] += table["methods"]
     prog["reply_table"] = table
     return table
@@ -502,7 +506,7 @@ def gen_ep_config_program(rng, name, overrides, migrate, reply, replies_feature)
         p["impl_between"] = list(p.get("impl_between", [])) + [(0, "pub const REPLY_SLOT: u64 = 1;")]
         rn = rng.choice(["reply", "on_reply", "handle_reply"])
         p["parts"][0]["handlers"].append({"kind": "reply", "name": rn, "safe": True, "hid": f"c.reply.{rn}", "part": "c",
-                                          "legacy": True, "args": [], "ret_err": "own"})
+                                          "legacy": True, "args": [], "ret_err": rng.choice(["own", "std"])})
     if reply in ("table", "legacy") and rng.random() < 0.6:
         # reply methods anywhere among the other handlers, e.g. before the migrate handler
         rng.shuffle(p["parts"][0]["handlers"])
